@@ -3,6 +3,10 @@
    gen_follower_commit lc commit prev_i lastnew len   value assigned to volatile.commit_index (when lc > commit)
    gen_stale_ack_ignored                        handle_append_entries_response drops responses with a lower term
    gen_quorum total                             crate::quorum_size
+   gen_vote_log_ok lli llt mli mlt gok          handle_request_vote: the candidate's log is acceptable (log_ok)
+   gen_prev_ok xt pt                            handle_append_entries: the entry at prev_log_index matches prev_log_term
+   gen_commit_pick len qn                       try_advance_commit_index: position picked in the sorted match list
+   gen_commit_term_ok et cur                    try_advance_commit_index: the entry at the new index is of the current term
    (lastnew = index of the last entry the request carried, or prev_i when it carried none)"""
 import os
 import re
@@ -73,6 +77,70 @@ def generate(repo):
     except Exception as ex:
         items["quorum_size"] = "miss:%s" % ex
 
+
+    # ---- handle_request_vote: log_ok -------------------------------------------------------------
+    vote = "(N.ltb mlt llt || (N.eqb llt mlt && N.ltb mli lli) || ((N.eqb llt mlt && N.eqb lli mli) && gok))"
+    try:
+        src = strip_comments(read(repo, "tensor_chain/src/raft.rs"))
+        _, body = find_fn(src, "handle_request_vote")
+        env = {"rv.last_log_term": "llt", "rv.last_log_index": "lli", "last_log_term": "mlt", "last_log_index": "mli",
+               "geometric_ok": "gok"}
+        for lm in re.finditer(r"let\s+(log_strictly_better|log_equal|log_ok)\s*=\s*([^;]+);", body):
+            env[lm.group(1)] = "(" + coq(parse_expr(lm.group(2)), Env(env)) + ")"
+        if "log_ok" not in env:
+            raise KeyError("`let log_ok = ...` not found")
+        if not re.search(r"if\s+can_vote\s*&&\s*log_ok\s*&&\s*candidate_healthy\s*\{", body):
+            raise KeyError("grant condition `can_vote && log_ok && candidate_healthy` not found")
+        vote = env["log_ok"]
+        items["vote_log_ok"] = "translated"
+    except Exception as ex:
+        items["vote_log_ok"] = "miss:%s" % ex
+
+    # ---- handle_append_entries: prev-entry check -------------------------------------------------
+    prev = "(N.eqb xt pt)"
+    try:
+        src = strip_comments(read(repo, "tensor_chain/src/raft.rs"))
+        _, body = find_fn(src, "handle_append_entries")
+        m = re.search(r"let\s+log_ok\s*=\s*if\s+ae\.prev_log_index\s*==\s*0\s*\{\s*true\s*\}\s*else\s+if\s+ae\.prev_log_index\s*<=\s*"
+                      r"persistent\.array_len_as_log_index\(\)\s*\{(.*?)\}\s*else\s*\{\s*false\s*\}\s*;", body, re.S)
+        if not m:
+            raise KeyError("`let log_ok = if prev == 0 {true} else if prev <= len {..} else {false};` not found")
+        mm = re.search(r"\.map_or\(\s*true\s*,\s*\|\s*(\w+)\s*\|\s*\{?\s*\1\s*<\s*persistent\.log\.len\(\)\s*&&\s*([^}]+?)\s*\}?\s*\)", m.group(1), re.S)
+        if not mm:
+            raise KeyError("prev-entry closure not recognised")
+        idx = mm.group(1)
+        rhs = re.sub(r"persistent\.log\[\s*%s\s*\]\.term" % idx, "LOGTERM", mm.group(2))
+        prev = coq(parse_expr(rhs), Env({"LOGTERM": "xt", "ae.prev_log_term": "pt"}))
+        items["prev_ok"] = "translated"
+    except Exception as ex:
+        items["prev_ok"] = "miss:%s" % ex
+
+    # ---- try_advance_commit_index ----------------------------------------------------------------
+    pick = "(len - qn)"
+    cterm = "(N.eqb et cur)"
+    try:
+        src = strip_comments(read(repo, "tensor_chain/src/raft.rs"))
+        _, body = find_fn(src, "try_advance_commit_index")
+        if not re.search(r"match_indices\.push\(\s*persistent\.array_len_as_log_index\(\)\s*\)", body) or \
+           not re.search(r"match_indices\.sort(_unstable)?\(\)", body):
+            raise KeyError("match list construction (values + own length, sorted ascending) not recognised")
+        m1 = re.search(r"let\s+quorum_idx\s*=\s*([^;]+);", body)
+        m2 = re.search(r"let\s+new_commit\s*=\s*match_indices\[\s*quorum_idx\s*\]\s*;", body)
+        if not m1 or not m2:
+            raise KeyError("quorum_idx / new_commit not found")
+        pick = coq(parse_expr(m1.group(1)), Env({"match_indices.len()": "len", "self.quorum_size()": "qn"}))
+        if not re.search(r"if\s+new_commit\s*>\s*volatile\.commit_index\s*\{", body):
+            raise KeyError("`if new_commit > volatile.commit_index` not found")
+        m3 = re.search(r"if\s+(\w+)\s*<\s*persistent\.log\.len\(\)\s*&&\s*([^{]+?)\s*\{\s*volatile\.commit_index\s*=\s*new_commit\s*;", body, re.S)
+        if not m3:
+            raise KeyError("term guard of the commit not recognised")
+        rhs = re.sub(r"persistent\.log\[\s*%s\s*\]\.term" % m3.group(1), "LOGTERM", m3.group(2))
+        cterm = coq(parse_expr(rhs), Env({"LOGTERM": "et", "persistent.current_term": "cur"}))
+        items["commit_pick"] = "translated"
+        items["commit_term_ok"] = "translated"
+    except Exception as ex:
+        items["commit_pick"] = items["commit_term_ok"] = "miss:%s" % ex
+
     text = HEADER + """From NV.Common Require Import Base.
 Open Scope N_scope.
 
@@ -83,5 +151,13 @@ Definition gen_follower_commit (lc commit prev_i lastnew len : N) : N := %s.
 Definition gen_stale_ack_ignored : bool := %s.
 (* tensor_chain/src/lib.rs quorum_size(total_nodes) *)
 Definition gen_quorum (total : N) : N := %s.
-""" % (ack, com, stale, quorum)
+(* handle_request_vote: log_ok (gok = outcome of the geometric tie-break, true when it is not consulted) *)
+Definition gen_vote_log_ok (lli llt mli mlt : N) (gok : bool) : bool := %s.
+(* handle_append_entries: the local entry at prev_log_index (term xt) against prev_log_term (pt) *)
+Definition gen_prev_ok (xt pt : N) : bool := %s.
+(* try_advance_commit_index: index into the ascending list of match indices (own log length included) *)
+Definition gen_commit_pick (len qn : N) : N := %s.
+(* try_advance_commit_index: term guard on the entry at the new commit index *)
+Definition gen_commit_term_ok (et cur : N) : bool := %s.
+""" % (ack, com, stale, quorum, vote, prev, pick, cterm)
     return text, items
